@@ -80,6 +80,76 @@ Definition sem_close_code (oid : nat) (kont : code) : code :=
                                 | Some (o, (e', s')) => Some (e', set_obj st oid (with_sem o s'))
                                 | None => None end) kont).
 
+(* ---- Acquire futures handled by hand: created, polled once at a time (possibly by different tasks), dropped ----
+   The harness keeps them in a slot table (an OCell object `q`): per slot three numbers
+   [waiter index + 1 (0 = empty); never_polled; completed] and, for addressing, the semaphore object is named by the
+   operation.  These are `BatchSemaphore::acquire(n)` (Acquire::new), one call of `Acquire::poll` with the polling
+   task's waker, and `Drop for Acquire` (remove from the queue, or give back permits granted but never collected). *)
+Definition slot_get (st : store) (q slot : nat) : option (N * N * N) :=
+  match get_obj st q with
+  | Some (OCell vals _) =>
+    match nth_error vals (3 * slot), nth_error vals (3 * slot + 1), nth_error vals (3 * slot + 2) with
+    | Some a, Some b, Some c => Some (a, b, c)
+    | _, _, _ => None end
+  | _ => None end.
+Definition slot_set (st : store) (q slot : nat) (a b c : N) : store :=
+  match get_obj st q with
+  | Some (OCell vals clk) =>
+    set_obj st q (OCell (list_upd (list_upd (list_upd vals (3 * slot) (fun _ => a)) (3 * slot + 1) (fun _ => b)) (3 * slot + 2) (fun _ => c)) clk)
+  | _ => st end.
+
+Definition acq_new_code (q slot oid : nat) (k : N) (kont : code) : code :=
+  atomic_u (fun e st =>
+      match slot_get st q slot with
+      | Some (0%N, _, _) =>
+        match on_sem oid st (fun s => sem_new_waiter e s k) with
+        | Some (o, (s', wid)) => Some (e, slot_set (set_obj st oid (with_sem o s')) q slot (N.of_nat (S wid)) 1 0)
+        | None => None end
+      | _ => None end) kont.
+
+(* one call of Acquire::poll by the running task; answers 0 = Ready(Ok), 1 = Ready(Err(closed)), 2 = Pending *)
+Definition acq_poll_code (q slot oid : nat) (kont : N -> code) : code :=
+  Atomic (fun e st =>
+      match slot_get st q slot with
+      | Some (N.pos p, never, 0%N) =>
+        match on_sem oid st (fun s => poll_needs_switch s (pred (Pos.to_nat p)) (N.eqb never 1)) with
+        | Some (_, b) => Some (e, st, [b2n b; N.of_nat (pred (Pos.to_nat p))])
+        | None => None end
+      | _ => None end)                                 (* empty slot, or `assert!(!self.completed)` *)
+    (fun a => match a with
+              | [sw; w] =>
+                switch_if (N.eqb sw 1)
+                  (Atomic (fun e st =>
+                       match me e with
+                       | None => None
+                       | Some m =>
+                         match on_sem oid st (fun s => sem_poll e s (N.to_nat w) m) with
+                         | Some (o, (e', s', r)) =>
+                           let done_ := match r with PPending => 0%N | _ => 1%N end in
+                           Some (e', slot_set (set_obj st oid (with_sem o s')) q slot (N.of_nat (S (N.to_nat w))) 0 done_,
+                                 [match r with PReadyOk => 0 | PReadyErr => 1 | PPending => 2 end]%N)
+                         | None => None
+                         end
+                       end)
+                     (fun r => match r with [x] => kont x | _ => Panic end))
+              | _ => Panic end).
+
+(* Drop for Acquire *)
+Definition acq_drop_code (q slot oid : nat) (kont : code) : code :=
+  Atomic (fun e st =>
+      match slot_get st q slot with
+      | Some (N.pos p, _, completed) =>
+        match on_sem oid st (fun s => sem_drop_acquire e s (pred (Pos.to_nat p)) (N.eqb completed 1)) with
+        | Some (o, (e', s', r)) =>
+          Some (e', slot_set (set_obj st oid (with_sem o s')) q slot 0 1 0,
+                [match r with DMustRelease n => N.succ n | _ => 0%N end])
+        | None => None end
+      | _ => None end)
+    (fun a => match a with
+              | [0%N] => kont
+              | [n] => sem_release_code oid (N.pred n) kont
+              | _ => Panic end).
+
 (* ---- Mutex ---- *)
 Inductive lock_res := LkOk | LkPoisoned | LkWouldBlock.
 Definition n_of_lock (r : lock_res) : N := match r with LkOk => 0%N | LkPoisoned => 1%N | LkWouldBlock => 2%N end.
